@@ -347,13 +347,17 @@ def _splice(d, stmts, blocks, next_block, counter, bid, idx, call_id, g, rnd):
     kids = list(binds)
     if gd.get("body") and pre + gd["body"] in new_stmts:
         kids.append(pre + gd["body"])
+    # the argument expressions are evaluated by the parameter bindings now (their parents), no longer by the call
+    bound = {new_stmts[b]["decls"][0].get("init") for b in binds if new_stmts[b].get("decls")}
+    bound |= {c2 for b in binds for c2 in new_stmts[b].get("ch", [])}
+    rest = [c for c in call.get("ch", []) if c and c not in bound]
     if ret_decl is not None:
         ref = synth("DeclRefExpr", d=dict(ret_decl), t=ret_decl["type"], vk="l")
         call["k"] = "ParenExpr"
-        call["ch"] = [ref] + kids + [c for c in call.get("ch", []) if c]
+        call["ch"] = [ref] + kids + rest
     else:
         call["k"] = "NullStmt"
-        call["ch"] = kids + [c for c in call.get("ch", []) if c]
+        call["ch"] = kids + rest
     call["inl_args"] = {"args": call.get("args"), "obj": call.get("obj")}
     for key in ("args", "obj", "calleeExpr", "callee"):
         call.pop(key, None)
